@@ -112,7 +112,7 @@ PROPS['C08'] = dict(
 )
 
 PROPS['C13'] = dict(
-    unit_modules=['contracts.c13_extract'], driver_modules=['drivers.c13'], level='other',
+    unit_modules=['contracts.c13_extract', 'contracts.c04_evaluate'], driver_modules=['drivers.c13'], level='other',
     level_text='tbd', level_note='tbd', assumptions=COMMON_ASSUMPTIONS,
 )
 
